@@ -20,7 +20,7 @@ COMPONENTS = {
 }
 ASSUMPTIONS = ['needles of >= 10 bytes; shorter file names are covered by the fixed path component every recorded path contains',
                'algorithm settings in config are public by design']
-PROBES = ['delete', 'clean', 'nonces', 'needles', 'exists_lied']
+PROBES = ['delete', 'clean', 'nonces', 'needles', 'exists_lied', 'foreign_unencrypted_repository_in_cache']
 TIERS = {'quick': {'budget_s': 70, 'batch': 10}, 'thorough': {'budget_s': 900, 'batch': 20}}
 ORACLES = ('store', 'secrecy')
 
@@ -43,11 +43,41 @@ def gen_case(seed, tier):
         case['contents'][rng.randrange(len(case['contents']))] = base64.b64encode(body).decode()
         for u in case['users']:
             u['N'] = rng.choice([1, 1, 2])
+    case['foreign_cache'] = substream(seed, 'c05-cache').random() < 0.3
     return case
 
 
+def _foreign_cache(H):
+    """Everybody uses one cache directory, and another - unencrypted - repository of the same
+    account has been used with it after ours was created."""
+    import os
+    from sim import harness, world
+    W, case = H.W, H.case
+    cache = str(W.dir / 'cache-shared')
+    W2 = harness.World(case['sched_seed'] ^ 0x5555, 'c05b', flavour=case['flavour'], lat_kind='zero', scratch=False)
+    W2.dir = W.dir
+    c2 = world.Client('other', password=None, concurrent=1, cache_dir=cache)
+    settings2 = {'chunking': dict(case['settings']['chunking']), 'hashing': case['settings'].get('hashing'), 'encryption': None}
+    settings2 = {k: v for k, v in settings2.items() if v is not None or k == 'encryption'}
+    r = W2.init(c2, settings2, world.SchedOpts.sequential())
+    if not r.ok:
+        raise RuntimeError(f'second repository: init failed in harness: {r.outcome()} {r.exc!r}')
+    src2 = W.dir / 'src-other'
+    src2.mkdir()
+    (src2 / 'o.bin').write_bytes(b'other repository data' * 3)
+    os.utime(src2 / 'o.bin', ns=(10**18, 10**18))
+    W2.snapshot(c2, [src2], world.SchedOpts.sequential())
+    W2.list_snapshots(c2, world.SchedOpts.sequential())
+    for c in H.clients:
+        c.cache_dir = cache
+    H.probe('foreign_unencrypted_repository_in_cache')
+
+
 def run_case(case):
-    return history.History(case, 'c05', ORACLES).run()
+    H = history.History(case, 'c05', ORACLES)
+    if case.get('foreign_cache'):
+        H.post_setup = _foreign_cache
+    return H.run()
 
 
 def shrink(case):
